@@ -61,9 +61,13 @@ def set_current(h):
 def _token_of(item):
     if isinstance(item, tuple) and len(item) == 4:
         target = item[0]
-        target = getattr(target, "func", target)         # functools.partial
-        target = getattr(target, "__self__", target)     # bound method
-        return getattr(target, "token", "?")
+        try:
+            target = getattr(target, "func", target)         # functools.partial
+            target = getattr(target, "__self__", target)     # bound method
+            return getattr(target, "token", "?")
+        except Exception:
+            # (callable objects whose attribute lookup fails in their own way)
+            return target.__dict__.get("_data", {}).get("token", "?")
     return "<sentinel>"
 
 
@@ -259,7 +263,9 @@ class Task(object):
     def submitted_as(self):
         """What is handed to enqueue: the task itself (a callable object with a __name__), a functools.partial or a
         nameless callable object (neither has a __name__), or a bound method - chosen by the token."""
-        shape = hash(self.token) % 6
+        shape = hash(self.token) % 7
+        if shape == 5:
+            return _DictBacked(self)
         if shape == 2:
             return functools.partial(self)
         if shape == 3:
@@ -267,6 +273,20 @@ class Task(object):
         if shape == 4:
             return _Nameless(self)
         return self
+
+
+class _DictBacked(object):
+    """A callable proxy object that answers unknown attributes from a dict: looking up a missing one raises KeyError,
+    not AttributeError (no __name__ either)."""
+
+    def __init__(self, task):
+        self.__dict__["_data"] = {"task": task, "token": task.token}
+
+    def __getattr__(self, key):
+        return self.__dict__["_data"][key]
+
+    def __call__(self, *args, **kwargs):
+        return self.__dict__["_data"]["task"](*args, **kwargs)
 
 
 class _Nameless(object):
@@ -469,6 +489,28 @@ def gen_program_stop_full_queue(rng):
         ops.append(["start"])
         ops.append(["enq", "after", "ret"])
         ops.append(["wait", "after"])
+    return prog
+
+
+def gen_program_blocked_producer(rng):
+    """
+    A bounded queue that is full while a producer thread is blocked in enqueue() (idle timeout far longer than the
+    run): the worker that finishes its task must still take the queued one, which frees the slot the producer needs.
+    """
+    maxt = rng.choice([1, 1, 2])
+    qsize = rng.choice([1, 2])
+    prog = {"max": maxt, "min": rng.randint(0, maxt), "timeout": 30, "queue_size": qsize,
+            "controller": [["start"]], "enqueuers": [[]]}
+    ops = prog["controller"]
+    for i in range(maxt):
+        ops.append(["enq", "s%d" % i, "sleep", rng.choice([60, 100])])      # every worker busy for a while
+    ops.append(["sleep", 20])
+    for i in range(qsize):
+        ops.append(["enq", "q%d" % i, "ret"])                                # the queue is full now
+    prog["enqueuers"][0] = [["enq", "blocked", "ret"]]                       # this enqueue has to wait for a slot
+    ops.append(["go", 0])
+    ops.append(["wait", "q0"])
+    ops.append(["sleep", 30])
     return prog
 
 
@@ -1074,7 +1116,11 @@ def check_c10(events, prog):
             elif k2 == "q_get" and f2.get("tok") in queued:
                 queued.remove(f2["tok"])
         if running and not faults and queued and inside < maxt:
-            out.append(("waiting-task-not-started-below-max_threads",
+            returned = set(f2["call"] for s2, k2, _, f2 in events if k2 == "enq_ret" and s2 < seq)
+            blocked_producer = prog.get("queue_size", 0) > 0 and any(
+                k2 == "enq_call" and s2 < seq and s2 not in returned for s2, k2, _, f2 in events)
+            out.append(("waiting-task-not-started-below-max_threads"
+                        + (":while-a-producer-is-blocked-on-the-full-bounded-queue" if blocked_producer else ""),
                         {"queued": queued[:5], "executing": inside, "max": maxt, "live_workers": f.get("alive"),
                          "frozen": f["what"]}))
     return out, {"peak_running": peak, "workers_seen": len(ix["workers"])}
